@@ -484,12 +484,14 @@ type simCache struct {
 	pol  int
 	keys []string
 	vals []any
+	sync int // race detector: stands for the lock a real cache implementation has (values pass from the storing to the reading goroutine)
 }
 
 func newSimCache(w *World, pol int) *simCache { return &simCache{w: w, pol: pol} }
 
 func (c *simCache) Get(key string) (R, bool) {
 	simrt.Yield("cache.Get")
+	simrt.HarnessAcquire(&c.sync)
 	v, ok := c.get(key)
 	f := 0
 	if ok {
@@ -502,6 +504,7 @@ func (c *simCache) Get(key string) (R, bool) {
 func (c *simCache) Set(key string, v R) {
 	simrt.Yield("cache.Set")
 	c.set(key, v)
+	simrt.HarnessRelease(&c.sync)
 	c.w.log.add(Event{Kind: EvCacheSet, Pos: c.pol, Str: key, Val: v})
 }
 
